@@ -714,10 +714,6 @@ def run(chk, cases):
     import time
     t0 = time.time()
     results = cm.coq_eval(PID, shards)
-    if os.environ.get("C14_KEEP"):
-        import shutil
-        shutil.rmtree(os.environ["C14_KEEP"], ignore_errors=True)
-        shutil.copytree(os.path.join(cm.WORK, PID, "cases"), os.environ["C14_KEEP"])
     chk.notes.append("coq evaluation of %d shards: %.1f s" % (len(shards), time.time() - t0))
     for (kind, k, ch), (rc, out) in zip(index, results):
         meta = pop_meta if kind == "pop" else dm_meta
